@@ -71,7 +71,7 @@ def revs_with(state, st):
 
 
 def is_custom(kind):
-    return kind not in ("ConfigMap", "Service")
+    return kind not in ("ConfigMap", "Service", "CustomResourceDefinition")
 
 
 def kf_triggers(evs):
